@@ -385,9 +385,12 @@ func vfH_dial_logic() {
 	if in.proto != "" {
 		rh["Sec-Websocket-Protocol"] = []string{in.proto}
 	}
-	wrongAccept := vfString(28)
-	for i := 0; i < 28; i++ {
-		vfAssume(vfAnd(wrongAccept[i] > 0x20, wrongAccept[i] < 0x7f))
+	wrongAccept := ""
+	if in.accept == 1 {
+		wrongAccept = vfString(28)
+		for i := 0; i < 28; i++ {
+			vfAssume(vfAnd(wrongAccept[i] > 0x20, wrongAccept[i] < 0x7f))
+		}
 	}
 	// the Accept value depends on the key the dial will generate: filled in by the hook below
 	body := vfBytes(in.body)
